@@ -929,3 +929,156 @@ def check_store_contract(fns, ctx, solver, store_kind):
                 F.append(Finding("C05", "store.%s.id-ignored" % store_kind, "the lookup with an id list does not require the credential id to be listed", sc,
                                  lambda o: isinstance(o["result"], dict) and o["result"].get("ok", 0) > 0, p))
     return F, queries, len(ps)
+
+
+# ---- AuthenticatorData::from_slice: length guard and fixed-size reads (C12 / C15) ------------------
+
+def _len_smt(t, decls):
+    """SMT term (BitVec 64) for the length of a slice-valued term"""
+    t = chase(t)
+    if t[0] == "subslice":
+        return "(_ bv%d 64)" % t[3]
+    if t[0] == "restslice":
+        return "(bvsub %s (_ bv%d 64))" % (_len_smt(t[1], decls), t[2])
+    name = "len_" + re.sub(r"[^A-Za-z0-9]", "_", tstr(t))[:40]
+    d = "(declare-const %s (_ BitVec 64))" % name
+    if d not in decls:
+        decls.append(d)
+    return name
+
+
+def _bv_smt(t, decls):
+    t = chase(t)
+    if t[0] == "const":
+        m = re.match(r"^(\d+)_(?:usize|u64|u32|u16|u8)$", t[1])
+        if m:
+            return "(_ bv%d 64)" % int(m.group(1))
+    if t[0] == "op1" and t[1] in ("PtrMetadata", "Len"):
+        return _len_smt(t[2], decls)
+    raise Shape("cannot encode %s as a bit-vector" % tstr(t)[:80])
+
+
+def _cond_smt(p, decls):
+    """the comparisons on slice lengths among the path's branch conditions"""
+    out = []
+    for k, op, v in p.conds:
+        t = p.cond_term.get(k)
+        if t is None or t[0] != "op" or t[1] not in ("Lt", "Le", "Gt", "Ge", "Eq", "Ne"):
+            continue
+        try:
+            a, b = _bv_smt(t[2], decls), _bv_smt(t[3], decls)
+        except Shape:
+            continue
+        rel = {"Lt": "(bvult %s %s)", "Le": "(bvule %s %s)", "Gt": "(bvugt %s %s)", "Ge": "(bvuge %s %s)",
+               "Eq": "(= %s %s)", "Ne": "(distinct %s %s)"}[t[1]] % (a, b)
+        if op == "==":
+            out.append(rel if v == 1 else "(not %s)" % rel)
+    return out
+
+
+def check_from_slice(paths, solver, want):
+    """every fixed-size read is covered by the length guard (no panic: C15); nothing shorter than the
+    37-byte header is accepted (C12); the flag byte goes through Flags::from_bits (C12)"""
+    from .smt import bv_value
+    F = []
+    queries = 0
+    for p in paths:
+        if p.end and p.end[0] == "unsupported":
+            raise Shape("unsupported MIR in from_slice: " + p.end[1][:200])
+        decls = []
+        try:
+            conds = _cond_smt(p, decls)
+        except Shape:
+            conds = []
+        total = "len__in__1_"
+        # (1) each split_at needs len >= at
+        for e in p.events:
+            if e["kind"] != "require":
+                continue
+            ln = _len_smt(e["slice"], decls)
+            verdict, model = solver.check(decls, conds + ["(bvult %s (_ bv%d 64))" % (ln, e["at"])], want_model=True)
+            queries += 1
+            if verdict == "sat":
+                n = None
+                for k, v in model.items():
+                    if k.startswith("len_"):
+                        n = bv_value(v)
+                if n is None or n > 4096:
+                    n = 36
+                prop_ = "C15" if "C15" in want else "C12"
+                F.append(Finding(prop_, "authdata.from_slice.short-read",
+                                 "AuthenticatorData::from_slice reaches split_at(%d) with only %s bytes left for an input of %d bytes (panic)" % (e["at"], "fewer", n),
+                                 {"op": "authdata_from_slice", "len": n, "flag": 0}, lambda o: isinstance(o["result"], dict) and "panic" in o["result"], p))
+            elif verdict != "unsat":
+                raise Shape("solver answered %s on a length query" % verdict)
+        # (2) Ok only for inputs of at least 37 bytes
+        r = p.end[1] if p.end and p.end[0] == "return" else None
+        is_err = r is not None and r[0] == "ctor" and r[1] == "Err"
+        if r is not None and not is_err and "C12" in want:
+            d2 = list(decls)
+            name = _len_smt(("in", "_1"), d2)
+            verdict, model = solver.check(d2, conds + ["(bvult %s (_ bv37 64))" % name], want_model=True)
+            queries += 1
+            if verdict == "sat":
+                n = bv_value(model.get(name, "")) if model else None
+                F.append(Finding("C12", "authdata.from_slice.short-accepted", "an input of %s bytes (< 37) is not rejected by the length guard" % n,
+                                 {"op": "authdata_from_slice", "len": n if n is not None else 36, "flag": 0},
+                                 lambda o: isinstance(o["result"], dict) and ("ok" in o["result"] or "panic" in o["result"]), p))
+            elif verdict != "unsat":
+                raise Shape("solver answered %s on the minimum-length query" % verdict)
+        # (3) the flags of an accepted input come from Flags::from_bits on the byte at offset 32
+        if r is not None and not is_err and "C12" in want:
+            fb = [e for e in p.events if e["kind"] == "call" and re.search(r"Flags::from_bits$|::from_bits$", e["callee"])]
+            bad = [e for e in p.events if e["kind"] == "call" and re.search(r"from_bits_(truncate|retain)$", e["callee"])]
+            if not fb or bad:
+                F.append(Finding("C12", "authdata.from_slice.reserved-flags", "the flag byte of an accepted input is not validated with Flags::from_bits",
+                                 {"op": "authdata_from_slice", "len": 37, "flag": 0x02}, lambda o: isinstance(o["result"], dict) and "ok" in o["result"], p))
+    return F, queries
+
+
+# ---- U2F register / authenticate (C17) -----------------------------------------------------------
+
+def check_u2f(reg_paths, auth_paths):
+    F = []
+    for p in reg_paths + auth_paths:
+        if p.end and p.end[0] == "unsupported":
+            raise Shape("unsupported MIR in u2f: " + p.end[1][:200])
+    # register: success only if the store accepted the credential; exactly one save, nothing else mutating
+    for p in reg_paths:
+        res = result_of(p)
+        if res is None:
+            continue
+        save = calls(p, "CredentialStore::save_credential")
+        upd = calls(p, "CredentialStore::update_credential")
+        if res[0] == "Ok":
+            if len(save) != 1 or upd or await_discr(p, save[0][1]["ret"]) != 0:
+                sc = [{"op": "u2f_register", "store": {"save": {"err": c}}, "user": {}} for c in STORE_ERROR_CODES]
+                F.append(Finding("C17", "u2f.register-ok-without-stored-credential",
+                                 "U2F register reports success on a path where the store did not accept the credential (save calls: %d)" % len(save), sc,
+                                 lambda o: isinstance(o["result"], dict) and "ok" in o["result"] and o.get("held_after", 0) == 0, p))
+        else:
+            if save and all(await_discr(p, e["ret"]) == 0 for _, e in save):
+                F.append(Finding("C17", "u2f.register-error-after-save", "U2F register returns an error after the credential was stored", None, None, p))
+    # authenticate: a response is produced only from a credential the store returned for this key handle
+    for p in auth_paths:
+        res = result_of(p)
+        if res is None:
+            continue
+        find = calls(p, "CredentialStore::find_credentials")
+        sign = [(i, e) for i, e in env_calls(p) if e["callee"].endswith("::sign") or e["callee"].endswith("::try_sign")]
+        if res[0] == "Ok":
+            if not find or not sign or find[0][0] > sign[0][0]:
+                F.append(Finding("C17", "u2f.authenticate-without-lookup", "U2F authenticate signs without a preceding credential lookup", None, None, p))
+                continue
+            origin = ("await", find[0][1]["ret"])
+            pk = calls(p, "private_key_from_cose_key")
+            if not pk or not derives_from(pk[0][1]["args"][0], origin, p) and chase(pk[0][1]["args"][0])[0] != "ref":
+                F.append(Finding("C17", "u2f.authenticate-key-source", "the signing key does not come from the looked-up credential", None, None, p))
+            # an unknown key handle (lookup error or empty result) must fail: the Ok path has to depend on both
+            dep_lookup = any("Result::map_err" in k or "find_credentials" in k for k, op, v in p.conds)
+            dep_first = any("Option::ok_or" in k or "Iterator::next" in k for k, op, v in p.conds)
+            if not (dep_lookup and dep_first):
+                sc = {"op": "u2f_authenticate", "store": {"find": {"err": 0x2E}}, "user": {}}
+                F.append(Finding("C17", "u2f.unknown-key-handle-accepted", "U2F authenticate can succeed without the lookup having produced a credential", sc,
+                                 lambda o: isinstance(o["result"], dict) and "ok" in o["result"], p))
+    return F
